@@ -1,6 +1,6 @@
 SPECIFICATION GSpec
 CONSTANTS
-  Vals = {1,2,3}
+  Vals = {1,2}
   Callers = {"owner","stranger"}
   Owner = "owner"
   HasImmutable = TRUE
